@@ -124,4 +124,38 @@ Fails(members, o, filters) ==
   LET sel == SelectSeq(members, LAMBDA m : Selected(filters, FullPath(m)))
   IN IF o.dry \/ o.mode = "print" THEN FALSE
      ELSE \E i \in 1..Len(sel) : IsFileM(sel[i]) /\ ~(Block(sel[i]) > 0 /\ sel[i].good)
+
+-------------------------------------------------------------------------------------
+(* src/main.c.  args = the arguments after the program name, as byte sequences.
+   main(): with two or more arguments, of which the first parses as a command word, that command runs on the second
+   argument with the rest as wildcard filters; with exactly one argument the archive named by it is listed ("lha foo.lzh"
+   = "lha l foo.lzh", whatever the argument looks like - "lha l" lists an archive called "l"); everything else prints the
+   usage page and ends with status 255.
+   do_command(): the archive name "-" means standard input (never opened, so never an open failure); any other name is
+   opened as a file, and a failure to open it is reported on standard error and ends the tool with status 255 before
+   anything is written to standard output.  The list commands print the archive file's modification time in the footer
+   (fstat on the stream, so for "-" that of whatever is connected to standard input). *)
+DEFAULTCMD == <<108>>
+Main(args) ==
+  LET n == Len(args) IN
+  IF n >= 2 /\ ParseCommand(args[1]).ok
+  THEN [kind |-> "run", o |-> ParseCommand(args[1]), archive |-> args[2], filters |-> SubSeq(args, 3, n)]
+  ELSE IF n = 1 THEN [kind |-> "run", o |-> ParseCommand(DEFAULTCMD), archive |-> args[1], filters |-> <<>>]
+  ELSE [kind |-> "usage", o |-> ParseCommand(DEFAULTCMD), archive |-> <<>>, filters |-> <<>>]
+FromStdin(inv) == inv.archive = <<45>>
+Opens(inv, fileThere) == FromStdin(inv) \/ fileThere
+S_OPENERR == <<76, 72, 97, 58, 32, 69, 114, 114, 111, 114, 58, 32>>          \* "LHa: Error: "
+S_USAGE   == <<117, 115, 97, 103, 101, 58, 32>>                                 \* "usage: "
+OpenError(inv, why) == S_OPENERR \o inv.archive \o <<32>> \o why \o <<10>>
+ListMode(o) == IF o.mode = "list" THEN (IF o.verbose THEN "lv" ELSE "l") ELSE (IF o.verbose THEN "vv" ELSE "v")
+IsListing(o) == o.mode \in {"list", "verbose"}
+HasSub(hay, needle) == \E i \in 1..(Len(hay) - Len(needle) + 1) : SubSeq(hay, i, i + Len(needle) - 1) = needle
+(* what an invocation writes to standard output, given the members the archive holds (records as for Output / Listing)
+   and env = [now, mtime, totalratio] for the list commands *)
+MainOutput(inv, members, env) ==
+  IF IsListing(inv.o)
+  THEN Listing(members, [mode |-> ListMode(inv.o), quiet |-> inv.o.quiet, now |-> env.now, mtime |-> env.mtime,
+                         filters |-> inv.filters, totalratio |-> env.totalratio])
+  ELSE Output(members, inv.o, inv.filters)
+MainStatus(inv, members) == IF IsListing(inv.o) THEN 0 ELSE IF Fails(members, inv.o, inv.filters) THEN 1 ELSE 0
 =======================================================================================
